@@ -17,6 +17,8 @@ RULE = (
     "reversed exactly; for every pixel (all of them up to 64x64, 1000 sampled beyond) all_pix2world(x, y) before equals "
     "all_pix2world(x, H-1-y) after, compared as unit vectors within 1e-6 pixel; ensure_negative_parity yields -1 and is idempotent on "
     "pixels and WCS. Non-trivial: rotated or skewed WCS on an image with >= 2 rows; distinct by WCS parameters."
+    ' Also: PIL-backed images touched before the flip; groups of same-shaped images all flipped before any is inspected; one WCS on obj'
+    'ects of four different heights; WCS objects that remember a foreign pixel_shape; non-default LONPOLE / LATPOLE.'
 )
 ASSUMPTIONS = ["astropy.wcs is the oracle for pixel -> sky"]
 
